@@ -215,7 +215,8 @@ func setDefaultNeighborConfigValuesWithViper(v *viper.Viper, n *Neighbor, g *Glo
 			// RFC 4724 4. Operation
 			// A suggested default for the Restart Time is a value less than or
 			// equal to the HOLDTIME carried in the OPEN.
-			n.GracefulRestart.Config.RestartTime = uint16(n.Timers.Config.HoldTime)
+			// The Restart Time field of the capability is 12 bits wide.
+			n.GracefulRestart.Config.RestartTime = uint16(min(n.Timers.Config.HoldTime, 4095))
 		}
 		if !v.IsSet("neighbor.graceful-restart.config.deferral-time") && n.GracefulRestart.Config.DeferralTime == 0 {
 			// RFC 4724 4.1. Procedures for the Restarting Speaker
